@@ -3,6 +3,7 @@
   Property theorems only.
 -/
 import PV.Proofs.C04Lemmas
+import PV.Proofs.C05Lemmas
 import Mathlib.Tactic.FieldSimp
 import Mathlib.Algebra.BigOperators.Group.List.Basic
 import Mathlib.Analysis.SpecialFunctions.Arcosh
@@ -794,8 +795,10 @@ theorem weight_telescope (qs : List Group) (q : Group) (hq : q ∈ qs) (x : Obs 
     no missing-replica factor occurs (all `sigma = 1`: the inputs touching an ensemble share their replica set).
     The union factors `|U|/|I|` telescope through the intermediate unions.
 
-    Partial: the case "same configuration list per replica, different replica sets" (where the missing-replica
-    factors telescope instead) and the derivation of `sigma = 1` from the set-level hypothesis are not proved;
+    The two regimes in which the statement holds are `c01_compose_complete` (hypothesis on the sets of chain names
+    only: the `sigma = 1` hypotheses below are derived) and `c01_compose_subsets` ("same configuration list per
+    chain, different replica sets", where the missing-replica factors telescope instead).  With both freedoms at
+    once the two evaluations differ (the missing-replica factor then depends on the intermediate merged lists);
     the hypothesis `hywf` is what `c04_derived_wf` provides. -/
 theorem c01_compose_partial (qs : List Group) (fs : Group → List ℝ → ℝ) (f2 F : List ℝ → ℝ)
     (covEq : List (List ℝ) → List (List ℝ) → Bool) (z z1 : Obs ℝ)
@@ -940,6 +943,276 @@ theorem c01_compose_complete (qs : List Group) (fs : Group → List ℝ → ℝ)
             sigma_one_of_complete (totalInputs qs) (totalInputs qs) (fun _ h => h) hC x ?_ e⟩
     · intro x' hx'; exact List.mem_flatMap.mpr ⟨q, hq, hx'⟩
     · exact List.mem_flatMap.mpr ⟨q, hq, hx⟩
+
+
+/-! ### inputs that lack whole replicas: the missing-replica factors telescope -/
+
+
+/-- all inputs that have a chain have it on the same configurations ("subsets" layouts: inputs may lack whole
+    replicas, but never part of one) -/
+def SameCfgs (X : List (Obs ℝ)) : Prop :=
+  ∀ x ∈ X, ∀ x' ∈ X, ∀ n, Spec.cfgs x n ≠ [] → Spec.cfgs x' n ≠ [] → Spec.cfgs x n = Spec.cfgs x' n
+
+theorem cfgs_pairwise (x : Obs ℝ) (hwf : x.WF = true) (n : String) : (Spec.cfgs x n).Pairwise (· < ·) := by
+  unfold Spec.cfgs
+  cases hr : x.rep? n with
+  | none => simp
+  | some r =>
+    have hm := List.mem_of_find?_eq_some hr
+    exact ((C05.wf_parts hwf).2 r hm).1
+
+theorem unionCfgs_same (xs : List (Obs ℝ)) (hwf : ∀ x ∈ xs, x.WF = true) (hS : SameCfgs xs)
+    (x : Obs ℝ) (hx : x ∈ xs) (n : String) (hne : Spec.cfgs x n ≠ []) :
+    Spec.unionCfgs xs n = Spec.cfgs x n := by
+  apply C01b.eq_of_pairwise_lt _ _ (C01b.pairwise_sortedSet _) (cfgs_pairwise x (hwf x hx) n)
+  intro c
+  show c ∈ Spec.unionCfgs xs n ↔ _
+  rw [mem_unionCfgs]
+  constructor
+  · rintro ⟨x', hx', hc⟩
+    have : Spec.cfgs x' n ≠ [] := List.ne_nil_of_mem hc
+    rw [hS x hx x' hx' n hne this]; exact hc
+  · intro hc; exact ⟨x, hx, hc⟩
+
+/-- Σ over the chains `l` of the number of union configurations -/
+def lenSum (xs : List (Obs ℝ)) (l : List String) : Nat := (l.map (fun m => (Spec.unionCfgs xs m).length)).sum
+
+theorem foldr_add_eq_sum (l : List Nat) : l.foldr (· + ·) 0 = l.sum := by
+  induction l with
+  | nil => rfl
+  | cons a l ih => simp [ih]
+
+theorem lenSum_perm (xs : List (Obs ℝ)) (l l' : List String) (h : l.Perm l') : lenSum xs l = lenSum xs l' :=
+  (h.map _).sum_eq
+
+theorem chainsOf_nodup (xs : List (Obs ℝ)) (e : String) : (Spec.chainsOf (Spec.allChains xs) e).Nodup := by
+  unfold Spec.chainsOf Spec.allChains newSampleNames
+  exact (((C04.pairwise_sortedSetStr _).imp (fun h => ne_of_lt h)).filter _).filter _
+
+/-- the missing-replica factor is (Σ over the chains of the ensemble in the result) / (Σ over the chains the input has),
+    both of the numbers of union configurations - also when the input has all of them (the ratio is then 1) -/
+theorem sigma_ratio (xs : List (Obs ℝ)) (o : Obs ℝ) (e : String) (he : e ∈ o.mcNames)
+    (hown : ∀ m ∈ Spec.chainsOf o.names e, m ∈ Spec.allChains xs)
+    (hnd : (Spec.chainsOf o.names e).Nodup) (hpos : 0 < lenSum xs (Spec.chainsOf o.names e)) :
+    Spec.sigma xs o e = (lenSum xs (Spec.chainsOf (Spec.allChains xs) e) : ℝ) / (lenSum xs (Spec.chainsOf o.names e) : ℝ) := by
+  have hsub : Spec.chainsOf o.names e ⊆ Spec.chainsOf (Spec.allChains xs) e := by
+    intro m hm
+    have h1 := hown m hm
+    unfold Spec.chainsOf at hm ⊢
+    rw [List.mem_filter] at hm ⊢
+    exact ⟨h1, hm.2⟩
+  have hposR : ((lenSum xs (Spec.chainsOf o.names e) : Nat) : ℝ) ≠ 0 := by exact_mod_cast hpos.ne'
+  unfold Spec.sigma
+  rw [if_neg (by simpa using he)]
+  simp only
+  split
+  · rename_i hlt
+    have hperm : ((Spec.allChains xs).filter (fun m => (Spec.chainsOf o.names e).contains m)).Perm (Spec.chainsOf o.names e) := by
+      rw [List.perm_ext_iff_of_nodup]
+      · intro m
+        simp only [List.mem_filter, List.contains_iff_mem, decide_eq_true_eq]
+        constructor
+        · exact fun h => h.2
+        · exact fun h => ⟨hown m h, h⟩
+      · unfold Spec.allChains newSampleNames
+        exact (((C04.pairwise_sortedSetStr _).imp (fun h => ne_of_lt h)).filter _).filter _
+      · exact hnd
+    have := lenSum_perm xs _ _ hperm
+    simp only [lenSum] at this ⊢
+    simp only [ofNatS_eq, foldr_add_eq_sum, this]
+  · rename_i hge
+    have hle : (Spec.chainsOf (Spec.allChains xs) e).length ≤ (Spec.chainsOf o.names e).length := by
+      simp only [Bool.and_eq_true, decide_eq_true_eq, not_and, not_lt] at hge
+      apply hge
+      by_contra h0
+      have : (Spec.chainsOf o.names e).length = 0 := by omega
+      rw [List.length_eq_zero_iff] at this
+      rw [this] at hpos
+      simp [lenSum] at hpos
+    have hperm : (Spec.chainsOf o.names e).Perm (Spec.chainsOf (Spec.allChains xs) e) :=
+      (List.subperm_of_subset hnd hsub).perm_of_length_le hle
+    rw [lenSum_perm xs _ _ hperm.symm, div_self hposR]
+    simp [ofNat_eq_lit, lit_eq]
+
+theorem lenSum_congr (xs xs' : List (Obs ℝ)) (l : List String)
+    (h : ∀ m ∈ l, Spec.unionCfgs xs m = Spec.unionCfgs xs' m) : lenSum xs l = lenSum xs' l := by
+  unfold lenSum
+  congr 1
+  apply List.map_congr_left
+  intro m hm
+  rw [h m hm]
+
+theorem lenSum_pos_of_mem (xs : List (Obs ℝ)) (l : List String) (m : String) (hm : m ∈ l)
+    (hpos : Spec.unionCfgs xs m ≠ []) : 0 < lenSum xs l := by
+  unfold lenSum
+  have h1 : (Spec.unionCfgs xs m).length ∈ l.map (fun m => (Spec.unionCfgs xs m).length) :=
+    List.mem_map.mpr ⟨m, hm, rfl⟩
+  have h2 : 0 < (Spec.unionCfgs xs m).length := List.length_pos_iff.mpr hpos
+  have := List.single_le_sum (fun _ _ => Nat.zero_le _) _ h1
+  omega
+
+theorem names_nodup (x : Obs ℝ) (hwf : x.WF = true) : x.names.Nodup :=
+  (C05.wf_parts hwf).1.imp (fun h => ne_of_lt h)
+
+theorem chainsOf_names_nodup (x : Obs ℝ) (hwf : x.WF = true) (e : String) : (Spec.chainsOf x.names e).Nodup := by
+  unfold Spec.chainsOf
+  exact (names_nodup x hwf).filter _
+
+theorem mem_chainsOf (names : List String) (e m : String) :
+    m ∈ Spec.chainsOf names e ↔ m ∈ names ∧ (e ++ "|").isPrefixOf m = true := by
+  unfold Spec.chainsOf; rw [List.mem_filter]
+
+/-- the up-weighting factors telescope when every input has each of its chains on the full configuration list of
+    that chain (inputs may lack whole replicas): the union factors are 1 and the missing-replica factors multiply
+    to the one-shot factor -/
+theorem weight_telescope_subsets (qs : List Group) (q : Group) (hq : q ∈ qs) (x : Obs ℝ) (hx : x ∈ q.X) (n : String)
+    (hd : ∀ q ∈ qs, IsDerived q.G q.X q.y)
+    (hwfX : ∀ x ∈ totalInputs qs, x.WF = true) (hwfY : ∀ q ∈ qs, q.y.WF = true)
+    (hS : SameCfgs (totalInputs qs))
+    (hbar : ∀ x ∈ totalInputs qs, ∀ m ∈ x.names, (Py.ensOf m ++ "|").isPrefixOf m = true)
+    (hne : ∀ x ∈ totalInputs qs, ∀ m, (x.rep? m).isSome = true → Spec.cfgs x m ≠ [])
+    (hinT : ∀ x ∈ totalInputs qs, ∀ m ∈ x.names, m ∈ newSampleNames (totalInputs qs))
+    (hinY : ∀ q ∈ qs, ∀ m ∈ q.y.names, m ∈ newSampleNames (qs.map (·.y)))
+    (hxn : (x.rep? n).isSome = true) :
+    Spec.weight (qs.map (·.y)) q.y n * Spec.weight q.X x n = Spec.weight (totalInputs qs) x n := by
+  have hxT : x ∈ totalInputs qs := List.mem_flatMap.mpr ⟨q, hq, hx⟩
+  have hsubQ : ∀ x' ∈ q.X, x' ∈ totalInputs qs := fun x' h => List.mem_flatMap.mpr ⟨q, hq, h⟩
+  have hSQ : SameCfgs q.X := fun a ha b hb m h1 h2 => hS a (hsubQ a ha) b (hsubQ b hb) m h1 h2
+  have hnx : n ∈ x.names := (rep_isSome_iff x n).mp hxn
+  have hcx : Spec.cfgs x n ≠ [] := hne x hxT n hxn
+  -- union configurations of a chain, relative to the three input lists
+  have hUT : ∀ x' ∈ totalInputs qs, ∀ m, (x'.rep? m).isSome = true → Spec.unionCfgs (totalInputs qs) m = Spec.cfgs x' m :=
+    fun x' hx' m hm => unionCfgs_same _ hwfX hS x' hx' m (hne x' hx' m hm)
+  have hUQ : ∀ x' ∈ q.X, ∀ m, (x'.rep? m).isSome = true → Spec.unionCfgs q.X m = Spec.cfgs x' m :=
+    fun x' hx' m hm => unionCfgs_same _ (fun a ha => hwfX a (hsubQ a ha)) hSQ x' hx' m (hne x' (hsubQ x' hx') m hm)
+  have hUY : ∀ m, Spec.unionCfgs (qs.map (·.y)) m = Spec.unionCfgs (totalInputs qs) m := fun m => unionCfgs_groups qs m hd
+  have hnQ : n ∈ newSampleNames q.X := (hd q hq).inputChains x hx n hxn
+  have hcy : Spec.cfgs q.y n = Spec.cfgs x n := by rw [(hd q hq).cfgs n hnQ, hUQ x hx n hxn]
+  have hlen : ((Spec.cfgs x n).length : ℝ) ≠ 0 := by
+    have : 0 < (Spec.cfgs x n).length := List.length_pos_iff.mpr hcx
+    exact_mod_cast this.ne'
+  -- the ensemble and the three sets of chains
+  set e := Py.ensOf n with he
+  have hpre : (e ++ "|").isPrefixOf n = true := hbar x hxT n hnx
+  have hex : e ∈ x.mcNames := (mem_mcNames x e).mpr ⟨n, hnx, rfl⟩
+  have hny : n ∈ q.y.names := (rep_isSome_iff q.y n).mp (((hd q hq).hasChain n).mpr hnQ)
+  have hey : e ∈ q.y.mcNames := (mem_mcNames q.y e).mpr ⟨n, hny, rfl⟩
+  have hA : n ∈ Spec.chainsOf x.names e := (mem_chainsOf _ _ _).mpr ⟨hnx, hpre⟩
+  have hB' : n ∈ Spec.chainsOf q.y.names e := (mem_chainsOf _ _ _).mpr ⟨hny, hpre⟩
+  have hUn : Spec.unionCfgs (totalInputs qs) n ≠ [] := by rw [hUT x hxT n hxn]; exact hcx
+  -- sigma as ratios
+  have s3 := sigma_ratio (totalInputs qs) x e hex
+    (fun m hm => hinT x hxT m ((mem_chainsOf _ _ _).mp hm).1) (chainsOf_names_nodup x (hwfX x hxT) e)
+    (lenSum_pos_of_mem _ _ n hA hUn)
+  have s2 := sigma_ratio q.X x e hex
+    (fun m hm => (hd q hq).inputChains x hx m ((rep_isSome_iff x m).mpr ((mem_chainsOf _ _ _).mp hm).1))
+    (chainsOf_names_nodup x (hwfX x hxT) e)
+    (lenSum_pos_of_mem _ _ n hA (by rw [hUQ x hx n hxn]; exact hcx))
+  have s1 := sigma_ratio (qs.map (fun q : Group => q.y)) q.y e hey
+    (fun m hm => hinY q hq m ((mem_chainsOf _ _ _).mp hm).1) (chainsOf_names_nodup q.y (hwfY q hq) e)
+    (lenSum_pos_of_mem _ _ n hB' (by rw [hUY]; exact hUn))
+  -- all sums are sums over the union configurations of the whole
+  have L1 : lenSum q.X (Spec.chainsOf x.names e) = lenSum (totalInputs qs) (Spec.chainsOf x.names e) := by
+    apply lenSum_congr
+    intro m hm
+    have hmx := (rep_isSome_iff x m).mpr ((mem_chainsOf _ _ _).mp hm).1
+    rw [hUQ x hx m hmx, hUT x hxT m hmx]
+  have L2 : lenSum q.X (Spec.chainsOf (Spec.allChains q.X) e) = lenSum (totalInputs qs) (Spec.chainsOf (Spec.allChains q.X) e) := by
+    apply lenSum_congr
+    intro m hm
+    obtain ⟨x', hx', hmx'⟩ := names_of_mem_newSampleNames q.X m ((mem_chainsOf _ _ _).mp hm).1
+    have h' := (rep_isSome_iff x' m).mpr hmx'
+    rw [hUQ x' hx' m h', hUT x' (hsubQ x' hx') m h']
+  have L3 : ∀ l, lenSum (qs.map (fun q : Group => q.y)) l = lenSum (totalInputs qs) l :=
+    fun l => lenSum_congr _ _ l (fun m _ => hUY m)
+  have L4 : (Spec.chainsOf q.y.names e).Perm (Spec.chainsOf (Spec.allChains q.X) e) := by
+    rw [List.perm_ext_iff_of_nodup (chainsOf_names_nodup q.y (hwfY q hq) e) (chainsOf_nodup q.X e)]
+    intro m
+    rw [mem_chainsOf, mem_chainsOf]
+    constructor
+    · rintro ⟨h1, h2⟩
+      exact ⟨((hd q hq).hasChain m).mp ((rep_isSome_iff q.y m).mpr h1), h2⟩
+    · rintro ⟨h1, h2⟩
+      exact ⟨(rep_isSome_iff q.y m).mp (((hd q hq).hasChain m).mpr h1), h2⟩
+  have L5 : (Spec.chainsOf (Spec.allChains (qs.map (fun q : Group => q.y))) e).Perm
+      (Spec.chainsOf (Spec.allChains (totalInputs qs)) e) := by
+    rw [List.perm_ext_iff_of_nodup (chainsOf_nodup _ e) (chainsOf_nodup _ e)]
+    intro m
+    rw [mem_chainsOf, mem_chainsOf]
+    constructor
+    · rintro ⟨h1, h2⟩
+      refine ⟨?_, h2⟩
+      obtain ⟨y', hy', hmy'⟩ := names_of_mem_newSampleNames _ m h1
+      obtain ⟨q', hq', rfl⟩ := List.mem_map.mp hy'
+      have h3 : m ∈ newSampleNames q'.X := ((hd q' hq').hasChain m).mp ((rep_isSome_iff q'.y m).mpr hmy')
+      obtain ⟨x', hx', hmx'⟩ := names_of_mem_newSampleNames _ m h3
+      exact hinT x' (List.mem_flatMap.mpr ⟨q', hq', hx'⟩) m hmx'
+    · rintro ⟨h1, h2⟩
+      refine ⟨?_, h2⟩
+      obtain ⟨x', hx', hmx'⟩ := names_of_mem_newSampleNames _ m h1
+      obtain ⟨q', hq', hx'q⟩ := List.mem_flatMap.mp hx'
+      have h3 : m ∈ newSampleNames q'.X := (hd q' hq').inputChains x' hx'q m ((rep_isSome_iff x' m).mpr hmx')
+      exact hinY q' hq' m ((rep_isSome_iff q'.y m).mp (((hd q' hq').hasChain m).mpr h3))
+  have hApos : ((lenSum (totalInputs qs) (Spec.chainsOf x.names e) : Nat) : ℝ) ≠ 0 := by
+    have := lenSum_pos_of_mem (totalInputs qs) _ n hA hUn
+    exact_mod_cast this.ne'
+  have hBpos : ((lenSum (totalInputs qs) (Spec.chainsOf (Spec.allChains q.X) e) : Nat) : ℝ) ≠ 0 := by
+    have hnB : n ∈ Spec.chainsOf (Spec.allChains q.X) e := (mem_chainsOf _ _ _).mpr ⟨hnQ, hpre⟩
+    have := lenSum_pos_of_mem (totalInputs qs) _ n hnB hUn
+    exact_mod_cast this.ne'
+  unfold Spec.weight
+  rw [s1, s2, s3, hUY n, hUT x hxT n hxn, hUQ x hx n hxn, hcy, L3, L3, L1, L2,
+    lenSum_perm _ _ _ L4, lenSum_perm _ _ _ L5]
+  simp only [ofNatS_eq]
+  field_simp
+
+/-- **C01 (independence of the splitting into intermediate steps), for inputs that lack whole replicas.**  If every
+    input has each of its chains on the full configuration list of that chain (`SameCfgs`; inputs may lack whole
+    replicas of an ensemble, so missing-replica factors do occur) and chain names carry their replica suffix, the
+    two-level evaluation and the one-shot evaluation with the chain-rule gradient carry the same fluctuation on
+    every chain and configuration: the union factors are 1 and the missing-replica factors of the two levels
+    multiply to the one-shot factor (`weight_telescope_subsets`). -/
+theorem c01_compose_subsets (qs : List Group) (fs : Group → List ℝ → ℝ) (f2 F : List ℝ → ℝ)
+    (covEq : List (List ℝ) → List (List ℝ) → Bool) (z z1 : Obs ℝ)
+    (hwf : ∀ q ∈ qs, ∀ x ∈ q.X, x.WF = true)
+    (hy : ∀ q ∈ qs, derivedObs (fs q) q.G q.X covEq = .ok q.y)
+    (hywf : ∀ q ∈ qs, q.y.WF = true)
+    (hz : derivedObs f2 (qs.map (·.a)) (qs.map (·.y)) covEq = .ok z)
+    (hz1 : derivedObs F (totalGrad qs) (totalInputs qs) covEq = .ok z1)
+    (hne : ∀ q ∈ qs, ∀ x ∈ q.X, ∀ n, (x.rep? n).isSome = true → Spec.cfgs x n ≠ [])
+    (hS : SameCfgs (totalInputs qs))
+    (hbar : ∀ x ∈ totalInputs qs, ∀ m ∈ x.names, (Py.ensOf m ++ "|").isPrefixOf m = true) :
+    ∀ n, n ∈ newSampleNames (qs.map (·.y)) → n ∈ newSampleNames (totalInputs qs) →
+      ∀ c ∈ Spec.unionCfgs (totalInputs qs) n, z.delta? n c = z1.delta? n c := by
+  intro n hn1 hn2 c hc
+  have hd : ∀ q ∈ qs, IsDerived q.G q.X q.y :=
+    fun q hq => isDerived_of_derivedObs (fs q) q.G q.X covEq q.y (hwf q hq) (hy q hq)
+  have hU := unionCfgs_groups qs n hd
+  have hwfY : ∀ y ∈ qs.map (·.y), y.WF = true := by
+    intro y hy'
+    obtain ⟨q, hq, rfl⟩ := List.mem_map.mp hy'
+    exact hywf q hq
+  have hwfX : ∀ x ∈ totalInputs qs, x.WF = true := by
+    intro x hx
+    obtain ⟨q, hq, hxq⟩ := List.mem_flatMap.mp hx
+    exact hwf q hq x hxq
+  have hneT : ∀ x ∈ totalInputs qs, ∀ m, (x.rep? m).isSome = true → Spec.cfgs x m ≠ [] := by
+    intro x hx
+    obtain ⟨q, hq, hxq⟩ := List.mem_flatMap.mp hx
+    exact hne q hq x hxq
+  have hinT : ∀ x ∈ totalInputs qs, ∀ m ∈ x.names, m ∈ newSampleNames (totalInputs qs) :=
+    fun x hx m hm => mem_newSampleNames_of_input _ x hx m hm (derivedObs_checks hz1).2
+  have hinY : ∀ q ∈ qs, ∀ m ∈ q.y.names, m ∈ newSampleNames (qs.map (·.y)) :=
+    fun q hq m hm => mem_newSampleNames_of_input _ q.y (List.mem_map.mpr ⟨q, hq, rfl⟩) m hm (derivedObs_checks hz).2
+  have e1 := c01_delta f2 (qs.map (·.a)) (qs.map (·.y)) covEq z hwfY (by simp) hz n hn1 c (by rw [hU]; exact hc)
+  have e2 := c01_delta F (totalGrad qs) (totalInputs qs) covEq z1 hwfX (derivedObs_checks hz1).1 hz1 n hn2 c hc
+  rw [e1, e2]
+  congr 1
+  apply compose_delta qs n c hd
+  · intro q hq x hx hxn
+    exact weight_telescope_subsets qs q hq x hx n hd hwfX hywf hS hbar hneT hinT hinY hxn
+  · intro q hq x hx c' hc'
+    exact delta_none_of_not_mem x n c' hc'
 
 end compose
 
